@@ -445,8 +445,8 @@ def r4(ctx):
         b = mname.split('.')[-1]
         fn = mod.func('_ravel_leaves')
         defs = [s for s in walk(fn) if isinstance(s, ast.Assign) and is_name(s.targets[0], 'to_dtype')]
-        ctx.require(len(defs) == 1, '%s._ravel_leaves: %d definitions of to_dtype' % (b, len(defs)))
-        text = src(defs[0].value)
+        ctx.require(len(defs) >= 1, '%s._ravel_leaves: no definition of to_dtype' % b)
+        text = ' ; '.join(src(d_.value) for d_ in defs)
         pairwise_np = bool(re.search(r'reduce\(\s*(np|numpy)\.promote_types', text))
         ctx.check('%s._ravel_leaves/promotion' % b, not (b == 'numpy' and pairwise_np),
                   '%s: common dtype computed as `%s`' % (b, text),
